@@ -73,11 +73,6 @@ Print Assumptions C03_objlike.
 (* ------------------------------------------------------------------ *)
 (* full conformance is refuted: one closed witness per finding class    *)
 (* ------------------------------------------------------------------ *)
-Theorem C03_conformance_refuted_operand_only_argument_expanded :
-  exists cs input, disagree cs input.
-Proof. exact (ex_intro _ _ (ex_intro _ _ refuted_operand_only_expanded)). Qed.
-Print Assumptions C03_conformance_refuted_operand_only_argument_expanded.
-
 (* the backstop: max_level - 1 nested object-like macros give the token 0; one fewer is fine *)
 Theorem C03_conformance_refuted_depth_limit :
   disagree (chain 0 (Nat.pred (Nat.pred Gen.C03_tables.max_level))) [tI "a"]
